@@ -35,3 +35,12 @@ def none_of(s, chars):
     """True when no character of s is one of `chars` (ord comparisons only)."""
     codes = [ord(c) for c in chars]
     return not any([any([ord(ch) == k for k in codes]) for ch in s])
+
+
+def concretize(v):
+    """Solver-driven case split: under the engine z3 picks one concrete value for `v` on this
+    path (the complementary "not that value" branch stays queued); identity in plain runs."""
+    if _NoTracing is not None and _is_tracing():
+        from crosshair.core import deep_realize
+        return deep_realize(v)
+    return v
